@@ -420,10 +420,25 @@ def run(modname, tier, seed, replay=None):
     fail = None
     extra = {}
 
-    # stage 1: deterministic sweeps (exhaustive sub-domains), in-process
+    # stage 0: saved inputs (regress/<PID>__*.json: shrunk failing cases of defects that were once found or seeded) - seconds
     r = Runner(mod, tier)
+    nreg = 0
+    if os.environ.get('VERIF_NO_REGRESS') != '1':
+        import glob
+        for path in sorted(glob.glob(os.path.join(VERIF, 'regress', '%s__*.json' % pid))):
+            with open(path) as fh:
+                data = json.load(fh)
+            case = data['case'] if isinstance(data, dict) and 'case' in data else data
+            nreg += 1
+            bad = r.judge(case, keep_sample=False)
+            if bad:
+                fail = {'case': case, 'discs': [d.to_json() for d in bad]}
+                break
+    extra['saved_inputs_replayed'] = nreg
+
+    # stage 1: deterministic sweeps (exhaustive sub-domains), in-process
     sweep_deadline = t0 + (getattr(mod, 'SWEEP_BUDGET_S', {}).get(tier, 600))
-    f = r.sweep_stage(sweep_deadline)
+    f = None if fail else r.sweep_stage(sweep_deadline)
     stats.merge(r.stats.export())
     if f:
         fail = {'case': f[0], 'discs': [d.to_json() for d in f[1]]}
